@@ -8,7 +8,7 @@ from ..terms import A, C, F, V, L, NIL, call, conj, TRUE, CUT, show_program, sho
 
 ID = 'C04'
 LEVEL = 'model_checking'
-RULE = ('(e) what a process does first: every sequence of <= 4 events over {A loads, A queries, A clears, B loads, B queries}, each in a process of its own forked from a zygote that never resolved a call, where B\'s predicates are named like A\'s registrations are filed (step_1, pair_2, ext_n, once_1): afterwards both engines give exactly their own answers; (a) two engines, generator level: every ordered pair of actor scripts from a menu of 21 incl. one that asserts with ONE Atom object (made by whichever of the two engines needs it first) as predicate name on both engines and two with fact tables of 40 and 300 facts looked up by key (+3 scripts that register ONE shared function object - inferred, with an explicit arity, as unbound and as bound method - paired with each other and with the registering scripts) (create engine, retractall / retract of predicates the engine does not know yet, load '
+RULE = ('(f) engines that come and go: 30 rounds of an engine with a Python predicate, a script and facts that is used, dropped and collected, followed by 40 new engines that must each be pristine; (e) what a process does first: every sequence of <= 4 events over {A loads, A queries, A clears, B loads, B queries}, each in a process of its own forked from a zygote that never resolved a call, where B\'s predicates are named like A\'s registrations are filed (step_1, pair_2, ext_n, once_1): afterwards both engines give exactly their own answers; (a) two engines, generator level: every ordered pair of actor scripts from a menu of 21 incl. one that asserts with ONE Atom object (made by whichever of the two engines needs it first) as predicate name on both engines and two with fact tables of 40 and 300 facts looked up by key (+3 scripts that register ONE shared function object - inferred, with an explicit arity, as unbound and as bound method - paired with each other and with the registering scripts) (create engine, retractall / retract of predicates the engine does not know yet, load '
         'script with overwrite on/off, assert_fact, register_function, clear, atom, start/next/close of a query or a '
         'retract) x ALL merge orders of their steps (with disjoint vocabularies and, for scripts that clear or intern atoms, with the same atom names on both engines); (b) one engine: every pair (and every triple from a subset) of '
         'side-effect-free queries over disjoint variables (recursion, cut, if-then-else, negation, \\=, once, findall, '
@@ -537,6 +537,59 @@ def run_first(spec, acc):
             acc.outcome(('first', len(ev)))
 
 
+# ---------------------------------------------------------------- (f) engines that come and go
+# A process creates and drops engines all the time (one per request).  30 rounds: an engine with a registered Python
+# predicate plugin/1, a loaded script and facts is used and dropped, the collector runs, then 40 NEW engines are
+# made (whatever memory the dead engine occupied is theirs now): each of them knows nothing of plugin/1, of the
+# script or of the facts, and answers only from its own fact.
+def _make_plugin(secrets):
+    # a plain function that holds no reference to its engine (the engine can be collected while the function lives on)
+    def plugin(arg1):
+        for v in secrets:
+            for _ in impl.engine.unify(arg1, v):
+                yield False
+    return plugin
+
+
+def generations():
+    import gc
+    bad = []
+    pytext = impl.compile_text('gen(one).\ngen(two).\nuses(X) :- plugin(X), gen(_).\n')
+    for rnd in range(30):
+        a = impl.YP()
+        secrets = ['secret_%d_%d' % (rnd, i) for i in range(2)]
+
+        a.register_function('plugin', _make_plugin(tuple(secrets)))
+        a.load_script_from_string(pytext, fn=impl.SCRIPT_FN)
+        a.assert_fact(a.atom('kept'), [a.atom('by_a')])
+        x = a.variable()
+        n = sum(1 for _ in a.query('uses', [x]))
+        if n != 4:
+            bad.append('round %d: the first engine answers uses/1 %d times instead of 4' % (rnd, n))
+        del a, x
+        gc.collect()
+        fresh = [impl.YP() for _ in range(40)]
+        for i, b in enumerate(fresh):
+            v = b.variable()
+            got = {}
+            for name in ('plugin', 'gen', 'uses', 'kept'):
+                try:
+                    got[name] = [impl.observe([v]) for _ in b.query(name, [v])]
+                except Exception as e:  # noqa: BLE001
+                    got[name] = 'raised %r' % (e,)
+            b.assert_fact(b.atom('plugin'), [b.atom('own_fact')])
+            own = [impl.observe([v]) for _ in b.query('plugin', [v])]
+            if any(got[k] != [] for k in got) or own != [(('a', 'own_fact'),)]:
+                bad.append('round %d, new engine %d (made after an engine with plugin/1, gen/1, uses/1, kept/1 was dropped and collected): before asserting anything it answers %r; after asserting plugin(own_fact) it answers plugin/1 with %r'
+                           % (rnd, i, got, own))
+                break
+        del fresh
+        gc.collect()
+        if bad:
+            break
+    return bad
+
+
 # ---------------------------------------------------------------- plan / run
 def plan(tier):
     sh = [('a', k, 32) for k in range(32)] + [('b2', k, 32, 4 if tier == 'quick' else 5) for k in range(32)] + [('b3', k, 16, 2 if tier == 'quick' else 3) for k in range(16)]
@@ -549,6 +602,7 @@ def plan(tier):
         sh += [('c', variant, bound, (start, k), nshard) for start in (0, 1) for k in range(nshard)]
     sh += [('d', k, 4) for k in range(4)]
     sh += [('e', k, 4) for k in range(4)]
+    sh += [('f',)]
     # the conjunction and variable-fact bodies again in a process whose loggers are at DEBUG (records kept)
     for variant in (0, 3):
         sh += [('c', variant, 1, (start, k), 8, 'logged') for start in (0, 1) for k in range(8)]
@@ -556,6 +610,18 @@ def plan(tier):
 
 
 def run_shard(spec):
+    if spec[0] == 'f':
+        acc = Acc()
+        bad = in_child(generations, quiet=True)
+        acc.n['evaluations'] += 30 * 40
+        acc.n['validated'] += 30 * 40
+        acc.n['nontrivial'] += 30 * 40
+        acc.n['transitions'] += 30 * 40 * 5
+        for b in bad:
+            acc.violation('a-new-engine-inherits-from-a-dead-one', (5, 0), {'kind': 'f'}, b, key='generations')
+        if not bad:
+            acc.outcome(('generations', 'pristine'))
+        return acc
     if spec[0] == 'e':
         acc = Acc()
         run_first(spec, acc)
@@ -770,6 +836,8 @@ def expand(pairs, n=None):
 
 
 def replay(case):
+    if case['kind'] == 'f':
+        return [('a-new-engine-inherits-from-a-dead-one', b) for b in in_child(generations, quiet=True)]
     if case['kind'] == 'e':
         import json
         import subprocess
